@@ -9,7 +9,8 @@ ev=$(mktemp -d /tmp/evalev-XXXXXX)
 git -C /repo worktree add -q --detach $wt HEAD || exit 2
 ( cd $wt && git apply $d/patch.diff ) || { echo "patch does not apply"; git -C /repo worktree remove --force $wt; exit 2; }
 for id in "$@"; do
-  out=$(cd /verif && VERIF_REPO=$wt VERIF_EVIDENCE_DIR=$ev timeout 1800 ./bin/verif check $id --tier ${TIER:-quick} 2>&1); rc=$?
+  vd=${VERIF_SNAP:-/verif}
+  out=$(cd $vd && VERIF_DIR=$vd VERIF_REPO=$wt VERIF_EVIDENCE_DIR=$ev timeout 1800 ./bin/verif check $id --tier ${TIER:-quick} 2>&1); rc=$?
   nv=$(echo "$out" | grep -c '^VIOLATION')
   ni=$(echo "$out" | grep -c '^INCONCLUSIVE')
   nb=$(echo "$out" | grep -c '^BROKEN')
